@@ -1,6 +1,6 @@
 (* C12/Properties.v — property theorems only: statement, `exact`, Print Assumptions. *)
 From Coq Require Import ZArith List Bool.
-From C12 Require Import Generated Model Env Proofs Refuted.
+From C12 Require Import Generated Model Env Proofs Refuted Cost CostProofs.
 Import ListNotations.
 Open Scope Z_scope.
 
@@ -79,6 +79,44 @@ Theorem C12_parse_repeatable : forall E m, z_in 59 (delims E) = true -> comment_
 Proof. exact prog_fuel_irrelevant_module. Qed.
 Print Assumptions C12_parse_repeatable.
 
+(* T12.cost — the amount of work is bounded by a fixed quadratic polynomial in the length of the text.
+   `prog_c` (Cost.v) is the parser instrumented with a step counter: 1 per call of a lexer/parser function, the
+   number of characters every scanning loop inspects, |rest|+1 per `index`/iteration of .comment's marker loop.
+   With the fuel of T12.total it returns exactly the result of `prog`, is never out of fuel, and its cost is at most
+   630 (|t|+1)^2 — for every text, program or error alike, every env with a guarded marker loop.
+   (The lexer alone is linear; the square comes from peeking: _expr, prog and _read_fn_args read the next token and
+   throw it away, and a token — a list literal, a string, a long comment — can be as long as the rest of the text.) *)
+Theorem C12_cost_quadratic : forall E, z_in 59 (delims E) = true -> comment_guard E = true ->
+  forall t fuel, (fuel >= fuel_for (length t))%nat ->
+  erase (prog_c E fuel t) = prog E fuel t /\ prog_c E fuel t <> COOF /\
+  (cost_of (prog_c E fuel t) <= 630 * ((length t + 1) * (length t + 1)))%nat.
+Proof. exact prog_cost_total. Qed.
+Print Assumptions C12_cost_quadratic.
+
+(* the cost bound alone needs neither enough fuel nor the guard: whatever the instrumented parser returns, it
+   returned it within the bound (an unguarded .comment("") only ever ends out of fuel) *)
+Theorem C12_cost_any_fuel : forall E, z_in 59 (delims E) = true ->
+  forall fuel t, (cost_of (prog_c E fuel t) <= 630 * ((length t + 1) * (length t + 1)))%nat.
+Proof. exact prog_cost_quadratic. Qed.
+Print Assumptions C12_cost_any_fuel.
+
+(* reading one token is linear in the remaining text *)
+Theorem C12_lexer_cost_linear : forall E, z_in 59 (delims E) = true ->
+  forall fuel rn ign s, (cost_of (kg_read_c E fuel rn ign s) <= 20 * (length s + 1))%nat.
+Proof. exact kg_read_cost_linear. Qed.
+Print Assumptions C12_lexer_cost_linear.
+
+(* for the environment regenerated from /repo; type-checks only while the translator finds, in /repo, exactly the
+   call sites and loops of the model (e.g. the `(`-branch of _factor parses its body once) *)
+Theorem C12_cost_quadratic_generated :
+  parser_call_sites_as_modelled = true /\
+  forall t, (cost_of (prog_c genv (fuel_for (length t)) t) <= 630 * ((length t + 1) * (length t + 1)))%nat.
+Proof.
+  exact (conj (eq_refl : parser_call_sites_as_modelled = true)
+              (fun t => prog_cost_quadratic genv (eq_refl : z_in 59 (delims genv) = true) (fuel_for (length t)) t)).
+Qed.
+Print Assumptions C12_cost_quadratic_generated.
+
 (* T12.comment_refuted (R6, repaired in /repo by `fix: .comment("") no longer hangs the parser`):
    without the guard the marker loop of read_sys_comment never ends for the empty marker, whatever the fuel *)
 Theorem C12_unguarded_comment_refuted : forall E, comment_guard E = false ->
@@ -120,4 +158,8 @@ Proof. vm_compute. reflexivity. Qed.
 Example C12_module_example :
   prog (env_with_module genv (Some [109])) (fuel_for 8) [97; 59; 120; 59; 46; 102]
   = Ok ([], [ASym [97; 96; 109]; ASym [120]; ASym [46; 102]]).
+Proof. vm_compute. reflexivity. Qed.
+
+(* f(1;2) costs 66 steps (bound: 630 * 49) *)
+Example C12_cost_example : cost_of (prog_c genv (fuel_for 6) [102; 40; 49; 59; 50; 41]) = 66%nat.
 Proof. vm_compute. reflexivity. Qed.
